@@ -69,7 +69,7 @@ CLAIMED = {
  "C09": dict(
   level="other",
   technique="static analysis: abstract interpretation of go/ssa (linear constraints + congruences) of every encoder on an unconstrained receiver, generating run-time-check obligations; symbolic evaluation of sizes (sums over lists, prefix sums, if-then-else on field comparisons) for the obligations that relate an encoder's cursor to its size function",
-  text="Decides one clause of the property, the one whose truth is in the shape of the code: 'marshalling the returned packets never panics'. Every packet type's Marshal, rtcp.Marshal and CompoundPacket.Marshal are analysed for EVERY receiver value with non-nil list elements and a re-encoded size of at most 65532 octets - a superset of what the decoders can return; all ~660 index, slice-bound (against the length), binary access, nil, division, type-assertion, make and loop obligations of the reachable universe must be entailed at the instruction; the obligations that relate a write cursor to the size function (SDES, CCFB, APP padding, TWCC deltas) are proved by the symbolic-sum engine (cursor = base + prefix sum, buffer = base + full sum of a per-element term that dominates it), REMB's float loop by a geometric-progress rule; nothing is discharged by reading on the pinned tree. SIZE - each of eight element encoders returns exactly the number of octets its container reserves for it, and RecvDelta.Marshal, packetLen and the delta cursor of TransportLayerCC.Marshal agree per size class. NOT decided: that the new bytes are accepted again and decode to an equal packet list, and the TransportLayerCC consistency condition - these relate run-time values of two executions; a reader must not take this check as evidence of idempotence.",
+  text="Decides one clause of the property, the one whose truth is in the shape of the code: 'marshalling the returned packets never panics'. Every packet type's Marshal, rtcp.Marshal and CompoundPacket.Marshal are analysed for EVERY receiver value with non-nil list elements and a re-encoded size of at most 65532 octets - a superset of what the decoders can return; all ~660 index, slice-bound (against the length), binary access, nil, division, type-assertion, make and loop obligations of the reachable universe must be entailed at the instruction; the obligations that relate a write cursor to the size function (SDES, CCFB, APP padding, TWCC deltas) are proved by the symbolic-sum engine (cursor = base + prefix sum, buffer = base + full sum of a per-element term that dominates it), REMB's float loop by a geometric-progress rule; nothing is discharged by reading on the pinned tree. SIZE - each of eight element encoders returns exactly the number of octets its container reserves for it, and RecvDelta.Marshal, packetLen and the delta cursor of TransportLayerCC.Marshal agree per size class. NOT decided: that the new bytes are accepted again and decode to an equal packet list, and the TransportLayerCC consistency condition - these relate run-time values of two executions; a reader must not take this check as evidence of idempotence. OWNBUF - the []byte that rtcp.Marshal and CompoundPacket.Marshal return aliases neither the packet list handed in nor a global (alias facts of the effect analysis, interface calls resolved through the synthesized pointer-receiver wrappers): decoded packets may be slices of the received datagram, so a re-encoder that hands back or appends into a member's buffer would overwrite the datagram the other members still refer to.",
   note="Trusted: go/ssa, checker/num, checker/effects, checker/sum, C05's DET/ALN/LEN rules (re-established for CCFeedbackReport), c09SizePairs (which size each container reserves), c09Triaged (one fallback entry for TWCC encoder forms outside the symbolic engine, unused on the pinned tree). Size-domain assumption: the 16-bit arithmetic of the size functions does not wrap. Above 65535 octets CCFeedbackReport.Marshal panics (uint16 buffer length) - outside the stated size domain.",
   design="DESIGN.md §8 (C09 as built)"),
  "C14": dict(
